@@ -1,6 +1,7 @@
 package main
 
 import (
+	"encoding/base64"
 	"encoding/json"
 	"fmt"
 	"math"
@@ -81,71 +82,283 @@ func (p *populator) str() string {
 	return fmt.Sprintf("s%d é✓ \"q\" \\ <&>   日本", n)
 }
 
-func tagEnumFirst(tag reflect.StructTag) (string, bool) {
-	js := tag.Get("jsonschema")
-	i := strings.Index(js, "enum=")
-	if i < 0 {
-		return "", false
-	}
-	v := js[i+len("enum="):]
-	if j := strings.IndexAny(v, ",;"); j >= 0 {
-		v = v[:j]
-	}
-	return v, true
+// cons are the constraints a field's own jsonschema tag declares (read back from the tag text the
+// grammar wrote, see stTag; compiled types use the same keywords).
+type cons struct {
+	enum               []string
+	minLen, maxLen     int // -1: not declared
+	pattern            string
+	min, max           *float64
+	minItems, maxItems int // -1: not declared
 }
 
+func (c *cons) stringy() bool { return c.minLen >= 0 || c.maxLen >= 0 || c.pattern != "" }
+func (c *cons) any() bool {
+	return len(c.enum) > 0 || c.stringy() || c.min != nil || c.max != nil || c.minItems >= 0 || c.maxItems >= 0
+}
+
+func parseCons(tag reflect.StructTag) cons {
+	c := cons{minLen: -1, maxLen: -1, minItems: -1, maxItems: -1}
+	js := tag.Get("jsonschema")
+	if js == "" {
+		return c
+	}
+	for _, d := range strings.FieldsFunc(js, func(r rune) bool { return r == ',' || r == ';' }) {
+		d = strings.TrimSpace(d)
+		i := strings.Index(d, "=")
+		if i < 0 {
+			continue
+		}
+		k, v := d[:i], d[i+1:]
+		num := func() *float64 {
+			var f float64
+			if _, err := fmt.Sscan(v, &f); err != nil {
+				panic("harness: bad number in jsonschema tag: " + d)
+			}
+			return &f
+		}
+		switch k {
+		case "enum":
+			c.enum = append(c.enum, v)
+		case "pattern":
+			c.pattern = v
+		case "minLength":
+			c.minLen = int(*num())
+		case "maxLength":
+			c.maxLen = int(*num())
+		case "minimum":
+			c.min = num()
+		case "maximum":
+			c.max = num()
+		case "minItems":
+			c.minItems = int(*num())
+		case "maxItems":
+			c.maxItems = int(*num())
+		}
+	}
+	return c
+}
+
+// fitString returns a string inside the declared zone: the pattern's fixed prefix, then filler up to
+// minLength / cut down to maxLength (lengths in code points, as JSON Schema counts them).
+func fitString(s string, c *cons) string {
+	filler := 'x'
+	switch c.pattern {
+	case "":
+	case "^s":
+		if !strings.HasPrefix(s, "s") {
+			s = "s" + s
+		}
+	case "^q[0-9]+$":
+		digits := ""
+		for _, r := range s {
+			if r >= '0' && r <= '9' {
+				digits += string(r)
+			}
+		}
+		s, filler = "q"+digits+"0", '0'
+	default:
+		panic("harness: no value generator for pattern " + c.pattern)
+	}
+	r := []rune(s)
+	for c.minLen >= 0 && len(r) < c.minLen {
+		r = append(r, filler)
+	}
+	if c.maxLen >= 0 && len(r) > c.maxLen {
+		r = r[:c.maxLen]
+	}
+	return string(r)
+}
+
+func (c *cons) fitFloat(f float64) float64 {
+	if (c.min != nil && f < *c.min) || (c.max != nil && f > *c.max) {
+		switch {
+		case c.min != nil && c.max != nil:
+			return (*c.min + *c.max) / 2
+		case c.min != nil:
+			return *c.min + 1
+		default:
+			return *c.max - 1
+		}
+	}
+	return f
+}
+
+func (c *cons) fitInt(n int64, seq int64) int64 {
+	f := float64(n)
+	if (c.min != nil && f < *c.min) || (c.max != nil && f > *c.max) {
+		switch {
+		case c.min != nil && c.max != nil:
+			lo, hi := int64(math.Ceil(*c.min)), int64(math.Floor(*c.max))
+			return lo + seq%(hi-lo+1)
+		case c.min != nil:
+			return int64(math.Ceil(*c.min)) + 1
+		default:
+			return int64(math.Floor(*c.max)) - 1
+		}
+	}
+	return n
+}
+
+// anyJSON builds the JSON text of a value of an "any JSON" kind (interface{}, json.RawMessage,
+// json.Marshaler): an enum member, else a string or a number inside the declared zone; without a
+// constraint it varies over object / string (text kinds) or string / number (interface{}).
+func (p *populator) anyJSON(c *cons, untagged [2]string) string {
+	q := func(s string) string { b, _ := json.Marshal(s); return string(b) }
+	num := func() string {
+		b, _ := json.Marshal(c.fitFloat(float64(p.next()) + 0.25))
+		return string(b)
+	}
+	switch {
+	case len(c.enum) > 0:
+		return q(c.enum[p.variant%len(c.enum)])
+	case !c.any():
+		return untagged[p.variant]
+	}
+	// one value of each JSON type the constraints speak about, both inside the zone (a keyword of the
+	// other JSON type constrains nothing)
+	firstIsString := c.stringy() || (c.min == nil && c.max == nil)
+	if firstIsString == (p.variant == 0) {
+		return q(fitString(p.str(), c))
+	}
+	return num()
+}
+
+var tightInstant = time.Date(2031, 5, 6, 7, 8, 9, 0, time.UTC)
+
 // value returns a populated value of type t; ok=false means the recursion limit was reached below a
-// pointer / array chain and the caller has to cut.
+// pointer / array chain and the caller has to cut. tag is the struct tag of the field the value is
+// for: the value obeys the constraints the field's own jsonschema tag declares. Values of fields
+// without constraints stay OUTSIDE the zones the "-tight" tag classes declare (short and long strings,
+// small and huge numbers, two-element slices), so that a constraint leaking from another field or
+// another type is refuted by them.
 func (p *populator) value(t reflect.Type, tag reflect.StructTag) (reflect.Value, bool) {
+	c := parseCons(tag)
 	switch t {
 	case tTime:
-		return reflect.ValueOf(fixedInstant.Add(time.Duration(p.variant) * time.Hour)), true
-	case tRaw:
-		return reflect.ValueOf(json.RawMessage(`{"k":1}`)), true
-	case tNumber:
+		if len(c.enum) > 0 || c.stringy() {
+			if len(c.enum) > 0 && c.enum[0] != tightTimeText {
+				panic("harness: no time value for enum " + c.enum[0])
+			}
+			return reflect.ValueOf(tightInstant), true // "2031-05-06T07:08:09Z", 20 characters
+		}
 		if p.variant == 0 {
-			return reflect.ValueOf(json.Number("12345")), true
+			return reflect.ValueOf(fixedInstant), true // 24 characters
+		}
+		return reflect.ValueOf(fixedInstant.Add(time.Hour).In(time.FixedZone("", 5*3600+1800))), true // 29 characters
+	case tRaw:
+		return reflect.ValueOf(json.RawMessage(p.anyJSON(&c, [2]string{`{"k":1}`, `"a raw string value, rather long"`}))), true
+	case tJM:
+		v := reflect.New(t).Elem()
+		v.Field(0).SetString(p.anyJSON(&c, [2]string{`{"jm":[1,"two",null]}`, `"a marshaled string, rather long"`}))
+		return v, true
+	case tTM:
+		v := reflect.New(t).Elem()
+		if len(c.enum) > 0 {
+			v.Field(0).SetString(c.enum[p.variant%len(c.enum)])
+		} else {
+			v.Field(0).SetString(fitString(p.str(), &c))
+		}
+		return v, true
+	case tNumber:
+		switch {
+		case len(c.enum) > 0:
+			return reflect.ValueOf(json.Number(c.enum[p.variant%len(c.enum)])), true
+		case p.variant == 0:
+			b, _ := json.Marshal(c.fitFloat(12345))
+			return reflect.ValueOf(json.Number(b)), true
+		}
+		if f := c.fitFloat(-12.5e3); f != -12.5e3 {
+			b, _ := json.Marshal(f)
+			return reflect.ValueOf(json.Number(b)), true
 		}
 		return reflect.ValueOf(json.Number("-12.5e3")), true
 	case tBytes:
-		return reflect.ValueOf([]byte(fmt.Sprintf("bytes\x00\xff%d", p.next()))), true
+		if len(c.enum) > 0 {
+			b, err := base64.StdEncoding.DecodeString(c.enum[p.variant%len(c.enum)])
+			if err != nil {
+				panic("harness: []byte enum value is not base64: " + err.Error())
+			}
+			return reflect.ValueOf(b), true
+		}
+		var b []byte
+		switch c.pattern {
+		case "", "^[A-Za-z0-9+/=]*$":
+		case "^QUJD":
+			b = []byte("ABC")
+		default:
+			panic("harness: no []byte value generator for pattern " + c.pattern)
+		}
+		n := 2 // untagged, small: 4 base64 characters
+		if p.variant == 1 {
+			n = 30 // untagged, large: 40 base64 characters
+		}
+		if c.minLen >= 0 && 4*((n+2)/3) < c.minLen {
+			n = 3 * ((c.minLen + 3) / 4)
+		}
+		if c.maxLen >= 0 && 4*((n+2)/3) > c.maxLen {
+			n = 3 * (c.maxLen / 4)
+		}
+		if n < len(b) {
+			n = len(b)
+		}
+		for i := 0; len(b) < n; i++ {
+			b = append(b, []byte{0x00, 0xff, byte('a' + p.next()%26)}[i%3])
+		}
+		return reflect.ValueOf(b[:n]), true
 	}
 	v := reflect.New(t).Elem()
 	switch t.Kind() {
 	case reflect.Bool:
 		v.SetBool(true)
 	case reflect.Int, reflect.Int8, reflect.Int16, reflect.Int32, reflect.Int64:
-		if e, ok := tagEnumFirst(tag); ok {
+		if len(c.enum) > 0 {
 			var n int64
-			fmt.Sscan(e, &n)
+			fmt.Sscan(c.enum[p.variant%len(c.enum)], &n)
 			v.SetInt(n)
 			break
 		}
-		bits := t.Bits()
-		v.SetInt(p.intFor(bits, true))
+		v.SetInt(c.fitInt(p.intFor(t.Bits(), true), p.seq))
 	case reflect.Uint, reflect.Uint8, reflect.Uint16, reflect.Uint32, reflect.Uint64, reflect.Uintptr:
-		v.SetUint(uint64(p.intFor(t.Bits(), false)))
+		if len(c.enum) > 0 {
+			var n uint64
+			fmt.Sscan(c.enum[p.variant%len(c.enum)], &n)
+			v.SetUint(n)
+			break
+		}
+		v.SetUint(uint64(c.fitInt(p.intFor(t.Bits(), false), p.seq)))
 	case reflect.Float32, reflect.Float64:
+		if len(c.enum) > 0 {
+			var f float64
+			fmt.Sscan(c.enum[p.variant%len(c.enum)], &f)
+			v.SetFloat(f)
+			break
+		}
 		f := float64(p.next()%1000) + 0.5
 		if p.variant == 1 && p.seq%2 == 0 {
 			f = -f * 1024
 		}
-		v.SetFloat(f)
+		v.SetFloat(c.fitFloat(f))
 	case reflect.String:
-		if e, ok := tagEnumFirst(tag); ok {
-			v.SetString(e)
+		if len(c.enum) > 0 {
+			v.SetString(c.enum[p.variant%len(c.enum)])
 		} else {
-			v.SetString(p.str())
+			v.SetString(fitString(p.str(), &c))
 		}
 	case reflect.Interface:
 		if t.NumMethod() != 0 {
 			return v, true
 		}
-		if p.variant == 0 {
-			v.Set(reflect.ValueOf(p.str()))
-		} else {
-			v.Set(reflect.ValueOf(float64(p.next()) + 0.25))
+		var x interface{}
+		if err := json.Unmarshal([]byte(p.anyJSON(&c, [2]string{"", ""})), &x); err != nil {
+			// no constraint: a short string or a small number
+			if p.variant == 0 {
+				x = p.str()
+			} else {
+				x = float64(p.next()) + 0.25
+			}
 		}
+		v.Set(reflect.ValueOf(x))
 	case reflect.Pointer:
 		ev, ok := p.value(t.Elem(), tag)
 		if !ok {
@@ -155,8 +368,15 @@ func (p *populator) value(t reflect.Type, tag reflect.StructTag) (reflect.Value,
 		pv.Elem().Set(ev)
 		v.Set(pv)
 	case reflect.Slice:
-		s := reflect.MakeSlice(t, 0, 2)
-		for i := 0; i < 2; i++ {
+		n := 2
+		if c.minItems > n {
+			n = c.minItems
+		}
+		if c.maxItems >= 0 && c.maxItems < n {
+			n = c.maxItems
+		}
+		s := reflect.MakeSlice(t, 0, n)
+		for i := 0; i < n; i++ {
 			ev, ok := p.value(t.Elem(), "")
 			if !ok {
 				s = reflect.MakeSlice(t, 0, 0) // cut: empty slice
